@@ -755,6 +755,8 @@ func (p *OAuthProxy) Authenticate(rw http.ResponseWriter, req *http.Request) (er
 
 	req.Header.Set("X-Forwarded-User", session.User)
 
+	// never let a client-chosen access token header through
+	req.Header.Del("X-Forwarded-Access-Token")
 	if p.upstreamConfig.PassAccessToken && session.AccessToken != "" {
 		req.Header.Set("X-Forwarded-Access-Token", session.AccessToken)
 	}
